@@ -220,11 +220,23 @@ func (c *c20Client) close() {
 	}
 }
 
+// The driver passes one -rapid.checks to every test of a unit; sessions are much more expensive than path
+// histories, so this test stops generating after C20_SESSION_CASES passing cases (never after a failure, so that
+// shrinking and replay are unaffected).
+var (
+	c20SessPassed int
+	c20SessFailed bool
+)
+
 func TestVerifC20Sessions(t *testing.T) {
 	rec := kit.R("TestVerifC20Sessions")
 	t.Cleanup(kit.Flush)
+	limit := kit.EnvInt("C20_SESSION_CASES", 8)
 
 	rapid.Check(t, func(t *rapid.T) {
+		if !c20SessFailed && c20SessPassed >= limit {
+			return
+		}
 		var sides [c20SNPairs]int
 		sides[c20SConnect] = rapid.SampledFrom([]int{c20Both, c20Both, c20StartOnly, c20UnOnly}).Draw(t, "connectSides")
 		sides[c20SRead] = rapid.SampledFrom([]int{c20Both, c20Both, c20StartOnly, c20UnOnly}).Draw(t, "readSides")
@@ -292,6 +304,7 @@ func TestVerifC20Sessions(t *testing.T) {
 			if len(rel) > 60 {
 				rel = rel[len(rel)-60:]
 			}
+			c20SessFailed = true
 			t.Fatalf("%s\n[connect=%s read=%s override=%v] history: %s\nlog: %s", fmt.Sprintf(format, args...),
 				c20SideNames[sides[c20SConnect]], c20SideNames[sides[c20SRead]], override, strings.Join(hist, " ; "), strings.Join(rel, " | "))
 		}
@@ -403,7 +416,7 @@ func TestVerifC20Sessions(t *testing.T) {
 			return rapid.SampledFrom(cands).Draw(t, "client")
 		}
 
-		t.Repeat(map[string]func(*rapid.T){
+		actions := map[string]func(*rapid.T){
 			"rtspPublish": func(t *rapid.T) {
 				p := rapid.SampledFrom(names).Draw(t, "path")
 				c := newClient("rtspPub", p)
@@ -599,7 +612,13 @@ func TestVerifC20Sessions(t *testing.T) {
 				}
 				await("after rawConn", false)
 			},
-		})
+		}
+		// reading is what this test is about: make those steps more likely
+		actions["rtspRead#2"] = actions["rtspRead"]
+		actions["rtspPause#2"] = actions["rtspPause"]
+		actions["rtspPlay#2"] = actions["rtspPlay"]
+		actions["readerLeaves#2"] = actions["readerLeaves"]
+		t.Repeat(actions)
 
 		// ---- the server shuts down with whatever is still open
 		hist = append(hist, "shutdown")
@@ -638,5 +657,6 @@ func TestVerifC20Sessions(t *testing.T) {
 		nontrivial := (availOpens >= 2 && readOpens >= 1) || kickedWhileReading || pausedCycle || (shutdownOpen && readOpens >= 1)
 		rec.Case(nontrivial, fmt.Sprintf("[connect=%s read=%s override=%v] %s", c20SideNames[sides[c20SConnect]],
 			c20SideNames[sides[c20SRead]], override, strings.Join(hist, " ; ")), cls...)
+		c20SessPassed++
 	})
 }
